@@ -1,41 +1,18 @@
-import sys, os, time, io, contextlib, tempfile, pathlib
-sys.path.insert(0, "/repo/src")
+import sys, os, tempfile, pathlib, traceback
+sys.path.insert(0, "/repo/src"); sys.path.insert(0, "/verif")
 sys.dont_write_bytecode = True
-import nunavut.cli
-
-base = tempfile.mkdtemp(prefix="c11probe_")
-b = pathlib.Path(base)
-for d in ["dsdl/vendor/a/b", "dsdl/vendor/register", "work", "real/deep", "tmp", "tpl"]:
-    (b / d).mkdir(parents=True)
-os.symlink("../real/deep", b / "work" / "link")
-(b / "dsdl/vendor/Top.1.0.dsdl").write_text("uint8 x\n@sealed\n")
-(b / "dsdl/vendor/a/b/Deep.1.0.dsdl").write_text("uint8 x\n@sealed\n")
-(b / "dsdl/vendor/register/User.2.0.dsdl").write_text("vendor.a.b.Deep.1.0 d\n@sealed\n")
-(b / "tpl/Any.j2").write_text("{{ T | type_to_include_path }}\n")
-
-
-def run(argv, cwd):
-    old = os.getcwd(); oa = sys.argv
-    os.chdir(cwd); sys.argv = ["nnvg"] + argv
-    out = io.StringIO()
+from harness import c11
+base = pathlib.Path(tempfile.mkdtemp(prefix="c11probe_"))
+roots = c11.write_corpus_universe(base / "dsdl", c11.CLI_SPEC)
+types = c11.read_root(roots[0])
+from nunavut import build_namespace_tree
+from nunavut.jinja import DSDLCodeGenerator
+(base / "sb").mkdir()
+tdir, fdir = c11.prepare_templates(str(base / "sb"), "Top")
+for lang in ["c", "py"]:
+    root = build_namespace_tree(types, roots[0]["dir"], str(base / "out"), c11.make_lctx(lang))
     try:
-        with contextlib.redirect_stdout(out):
-            try:
-                rc = nunavut.cli.main()
-            except SystemExit as e:
-                rc = e.code
-            except Exception as e:
-                rc = repr(e)
-    finally:
-        os.chdir(old); sys.argv = oa
-    return rc, out.getvalue()
-
-
-for lang, extra in [("c", ["--templates", base + "/tpl"]), ("c", []), ("py", []), ("c", ["--templates", base + "/tpl", "-e", ""])]:
-    for mode in (["--list-outputs"], []):
-        t = time.time()
-        rc, out = run(["--target-language", lang, "--outdir", "link/../out", "--generate-namespace-types"] + extra + mode + [base + "/dsdl/vendor"], base + "/work")
-        print(lang, extra[-2:], mode, rc, round(time.time() - t, 3), out[:400])
-print(os.listdir(base + "/real"), os.listdir(base + "/work"))
-import shutil
-shutil.rmtree(base)
+        DSDLCodeGenerator(root, templates_dir=fdir).generate_all(is_dryrun=False)
+    except Exception as e:
+        print(lang, type(e).__name__, str(e)[:300])
+import shutil; shutil.rmtree(base)
